@@ -39,6 +39,10 @@ def extract(facts, tname):
         if g["guard"] is None:
             raise AnchorMissing("%s: channel loop at line %s is not guarded by the mask" % (tname, e.get("ln")))
         inner_st = stx.clone()
+        if g["guard"] == "filter-mask" and g.get("elem") and g.get("chan") and g.get("methods") and g["methods"][0] in ("iter", "iter_mut") and "enumerate" in g["methods"] \
+                and isinstance(g.get("over"), dict):
+            # `for (chan, buf) in X.iter_mut().enumerate()`: the element variable is X[chan]
+            inner_st.locals[g["elem"]] = N("index", e=sx.eval(g["over"], inner_st), i=N("path", p=g["chan"]))
         for s in g["body"]:
             if _noop(s):
                 continue
